@@ -61,6 +61,8 @@ def _word_sets(node, what):
 
 def _word_extra(node, base, what):
     names, extra = _word_sets(node, what)
+    if node.kw:
+        raise TranslateError("%s: unexpected keyword arguments %r" % (what, sorted(node.kw)))
     if names != [base]:
         raise TranslateError("%s: expected %s + extras, got %r" % (what, base, names))
     return extra
